@@ -477,6 +477,10 @@ pub struct TimeCase {
     pub which: char,
     /// Some((left_justified, width)) on the %X@ directive
     pub width: Option<(bool, u8)>,
+    /// 0: the file itself; 1, 2, 3: a symbolic link to it (with other time stamps of its own) as the
+    /// starting point under -P, -L, -H - the record the follow mode selects supplies the times
+    #[serde(default)]
+    pub via_link: u8,
 }
 
 /// days since 1970-01-01 -> (year, month, day), proleptic Gregorian
@@ -506,20 +510,26 @@ fn gen_time_case(g: &mut Gen) -> TimeCase {
         1 => (g.range(1, 9) as u32) * 10u32.pow(g.below(9) as u32),
         _ => g.below(1_000_000_000) as u32,
     };
-    TimeCase { secs, ns, which: g.pick(&['A', 'T', 'T', 'C']), width: if g.chance(1, 4) { Some((g.bool(), g.range(0, 30) as u8)) } else { None } }
+    TimeCase { secs, ns, which: g.pick(&['A', 'T', 'T', 'C']), width: if g.chance(1, 4) { Some((g.bool(), g.range(0, 30) as u8)) } else { None }, via_link: if g.chance(1, 3) { g.range(1, 3) as u8 } else { 0 } }
 }
 
 fn check_times(ctx: &mut Ctx, c: &TimeCase) -> Outcome {
     ctx.fresh_case_dir();
     std::fs::write("c/f", b"x").unwrap();
     crate::engine::fsx::set_times("c/f", Some((c.secs, c.ns)), Some((c.secs, c.ns)));
-    let md = std::fs::symlink_metadata("c/f").unwrap();
+    let entry = if c.via_link > 0 { "c/l" } else { "c/f" };
+    if c.via_link > 0 {
+        std::os::unix::fs::symlink("f", "c/l").unwrap();
+        let other = (c.secs - 7_777, (c.ns + 111_111_111) % 1_000_000_000);
+        crate::engine::fsx::set_times("c/l", Some(other), Some(other));
+    }
+    let md = if c.via_link >= 2 { std::fs::metadata(entry).unwrap() } else { std::fs::symlink_metadata(entry).unwrap() };
     let (secs, ns) = match c.which {
         'A' => (md.atime(), md.atime_nsec() as u32),
         'T' => (md.mtime(), md.mtime_nsec() as u32),
         _ => (md.ctime(), md.ctime_nsec() as u32),
     };
-    if c.which != 'C' && (secs, ns) != (c.secs, c.ns) {
+    if c.which != 'C' && c.via_link != 1 && (secs, ns) != (c.secs, c.ns) {
         return Pass::new(false).class("file-system-did-not-keep-the-time-stamp").ok();
     }
     let x = c.which;
@@ -528,8 +538,9 @@ fn check_times(ctx: &mut Ctx, c: &TimeCase) -> Outcome {
         Some((left, w)) => format!("%{}{w}{x}@", if left { "-" } else { "" }),
     };
     let fmt = format!("{at}|%{x}S|%{x}+|%{x}Y-%{x}m-%{x}d+%{x}H:%{x}M:%{x}S|%{x}Y-%{x}m-%{x}d %{x}H:%{x}M|%{}\n", match x { 'A' => 'a', 'T' => 't', _ => 'c' });
-    let o = ctx.find(&["c/f", "-printf", &fmt]);
-    let desc = |extra: &str| format!("file c/f with {} time {secs}.{ns:09} (TZ=UTC)\nfind c/f -printf {fmt:?}\nexit {} stdout {:?} stderr {:?}\n{extra}", match x { 'A' => "access", 'T' => "modification", _ => "status-change" }, o.status, lossy(&o.stdout), lossy(&o.stderr));
+    let flag = ["-P", "-P", "-L", "-H"][c.via_link as usize % 4];
+    let o = ctx.find(&[flag, entry, "-printf", &fmt]);
+    let desc = |extra: &str| format!("{}{} time {secs}.{ns:09} (TZ=UTC)\nfind {flag} {entry} -printf {fmt:?}\nexit {} stdout {:?} stderr {:?}\n{extra}", if c.via_link > 0 { "c/l -> f, a link with time stamps of its own; the record the follow mode selects has the " } else { "file c/f with " }, match x { 'A' => "access", 'T' => "modification", _ => "status-change" }, o.status, lossy(&o.stdout), lossy(&o.stderr));
     if let Some(p) = &o.panic {
         return fail(format!("C16:panic:{}", p.split(": ").next().unwrap_or("?")), desc(p));
     }
@@ -595,6 +606,8 @@ fn check_times(ctx: &mut Ctx, c: &TimeCase) -> Outcome {
         .class(era)
         .class(match x { 'A' => "access-time", 'T' => "modification-time", _ => "status-change-time" })
         .class_if(c.width.is_some(), "width-on-time-directive")
+        .class_if(c.via_link == 1, "link-under-P-own-times")
+        .class_if(c.via_link >= 2, "link-resolved-by-follow-mode-target-times")
         .sample(json!({"secs": secs, "ns": ns, "which": x.to_string(), "output": text}))
         .ok()
 }
